@@ -21,16 +21,16 @@ import (
 // ---------------------------------------------------------------------------------
 
 type witness struct {
-	Subject   string   // "synthetic chain case N" / fixture name
-	Backend   string   // legacy | new
-	Builder   string   // backend of the node that built the chain
-	Position  int      // block number at which the attempt was made (head = Position-1)
-	Block     string   // summary of the valid block
-	Op        string   // tamper operator
-	Loc       string   // where
-	Rehashed  bool     // block hash recomputed after tampering
-	Sanity    string   // error of SanityCheckNewHeight ("" = passed)
-	Store     string   // error of Store ("" = accepted / not reached)
+	Subject   string // "synthetic chain case N" / fixture name
+	Backend   string // legacy | new
+	Builder   string // backend of the node that built the chain
+	Position  int    // block number at which the attempt was made (head = Position-1)
+	Block     string // summary of the valid block
+	Op        string // tamper operator
+	Loc       string // where
+	Rehashed  bool   // block hash recomputed after tampering
+	Sanity    string // error of SanityCheckNewHeight ("" = passed)
+	Store     string // error of Store ("" = accepted / not reached)
 	Expected  string
 	Observed  string
 	Diff      []string `json:",omitempty"`
